@@ -20,6 +20,17 @@ KEY_SIZE = {"es-256": 256, "es-384": 384, "es-521": 521}
 ES_HASH = {256: "sha256", 384: "sha384", 521: "sha512"}
 
 
+STALE = b"\xa5" * 100000      # content of the output path before the call: a rebuild writes over a longer, older file
+
+
+def read_output(fo):
+    """bytes the tool wrote to the output path, None when it wrote nothing (absent, or still the stale content)"""
+    if not os.path.exists(fo):
+        return None
+    b = open(fo, "rb").read()
+    return None if b == STALE else b
+
+
 def sign_script():
     return os.path.join(core.REPO, "ncs", "sign_script.py")
 
@@ -418,12 +429,12 @@ def lib_single(tmp, data, key_name, kid, alg, ctx, action, name="lib"):
     fi, fo = os.path.join(tmp, name + "-in.suit"), os.path.join(tmp, name + "-out.suit")
     with open(fi, "wb") as fh:
         fh.write(data)
-    if os.path.exists(fo):
-        os.remove(fo)
+    with open(fo, "wb") as fh:
+        fh.write(STALE)
     r = impl(_cmd().main, sign_subcommand="single-level", input_envelope=fi, output_envelope=fo, key_name=key_name, key_id=kid,
              alg=SuitSignAlgorithms(alg), context=ctx, sign_script=sign_script(), kms_script=kms_script(),
              already_signed_action=SignatureAlreadyPresentActions(action))
-    out = open(fo, "rb").read() if os.path.exists(fo) else None
+    out = read_output(fo)
     if r[0] == "ok":
         return ("ok", out)
     return (r[0], r[1], out)
@@ -435,8 +446,8 @@ def lib_recursive(tmp, data, config, name="lib", env=None):
         fh.write(data)
     with open(fc, "w") as fh:
         json.dump(config, fh)
-    if os.path.exists(fo):
-        os.remove(fo)
+    with open(fo, "wb") as fh:
+        fh.write(STALE)
     saved = {k: os.environ.get(k) for k in ("NCS_SUIT_SIGN_SCRIPT", "NCS_SUIT_KMS_SCRIPT", "ZEPHYR_BASE")}
     for k in saved:
         os.environ.pop(k, None)
@@ -448,7 +459,7 @@ def lib_recursive(tmp, data, config, name="lib", env=None):
             os.environ.pop(k, None)
             if v is not None:
                 os.environ[k] = v
-    out = open(fo, "rb").read() if os.path.exists(fo) else None
+    out = read_output(fo)
     if r[0] == "ok":
         return ("ok", out)
     return (r[0], r[1], out)
@@ -475,9 +486,11 @@ def cli_single(tmp, name, data, key_name, kid, alg, ctx, action=None, kid_text=N
         args += ["--context", ctx]
     if action is not None:
         args += ["--already-signed-action", action]
-    rc = cli(args, d)
     fo = os.path.join(d, "out.suit")
-    out = open(fo, "rb").read() if os.path.exists(fo) else None
+    with open(fo, "wb") as fh:
+        fh.write(STALE)
+    rc = cli(args, d)
+    out = read_output(fo)
     shutil.rmtree(d, ignore_errors=True)
     return rc, out
 
@@ -490,9 +503,11 @@ def cli_recursive(tmp, name, data, config, env=None):
         fh.write(data)
     with open(os.path.join(d, "cfg.json"), "w") as fh:
         json.dump(config, fh)
-    rc = cli(["sign", "recursive", "--input-envelope", "in.suit", "--output-envelope", "out.suit", "--configuration", "cfg.json"], d, env)
     fo = os.path.join(d, "out.suit")
-    out = open(fo, "rb").read() if os.path.exists(fo) else None
+    with open(fo, "wb") as fh:
+        fh.write(STALE)
+    rc = cli(["sign", "recursive", "--input-envelope", "in.suit", "--output-envelope", "out.suit", "--configuration", "cfg.json"], d, env)
+    out = read_output(fo)
     shutil.rmtree(d, ignore_errors=True)
     return rc, out
 
